@@ -515,7 +515,7 @@ def run_item(gid, item, cfg):
                     except Exception as e:  # noqa
                         entry['replay'] = {'status': 'REPLAY-ERROR', 'detail': traceback.format_exc(limit=6)}
                 info['replays'].append(entry)
-            if spec is not None and not refuted and run.replayable and spec.done:
+            if spec is not None and not refuted and run.replayable and spec.done and not getattr(c, 'no_crosscheck', False):
                 key = json.dumps([item, c.decisions[:c.pos]], sort_keys=True, default=str)
                 if rate <= 1 or _seeded_pick(seed, key, rate):
                     m = c.model()
